@@ -14,19 +14,26 @@ RULE = ('a case = a universe (3-5 real AbstractUnit subclasses with fixed and va
         '(about 80 % chosen inside the preconditions, the rest violate them or are malformed: wrong index, non-stream, stream not in '
         'the list), over item/slice assignment, pipe notation, insert/append/extend/replace/pop/remove/clear/empty, '
         'disconnect_source/sink/disconnect, u1-u2, unit.disconnect(join_ends), unit.insert, take_place_of, replace_with, '
-        'Connection.reconnect and unit construction, with placeholders addressed by the port they sit in; exhaustive cases run every '
-        'sequence of depth d over a fixed alphabet of operations from several prefixes on 3 units x 5 streams. After EVERY operation '
-        'the exception class, the precondition flag and the whole state (each unit\'s ins/outs as stream numbers / placeholder '
-        'identities, each slot object\'s sink and source, each stream\'s sink and source) are compared with the model. '
-        'non-trivial = at least one operation changed the observed state; distinct = distinct case hash')
+        'Connection.reconnect and unit construction, with placeholders addressed by the port they sit in; exhaustive cases run EVERY '
+        'sequence of depth d over a fixed 78-operation alphabet (a 26-operation sub-alphabet for the deepest level) from the empty and '
+        'from generated prefixes on 3 units x 5 streams. After EVERY operation the exception class, the precondition flag and the '
+        'whole state (each unit\'s ins/outs as stream numbers / placeholder identities, each slot object\'s sink and source, each '
+        'stream\'s sink and source) are folded, on both sides, into a 63-bit rolling checksum; the checksums and the final state in '
+        'full are compared with the model. non-trivial = at least one operation changed the observed state; distinct = distinct case hash')
 ASSUMPTIONS = ['docking warnings (RuntimeWarning text) are not part of the model; units and streams are created without IDs so none is emitted',
                'extended slices (step != 1), explicit inlet/outlet arguments of AbstractUnit.insert, explicit inlets/outlets of '
                'AbstractUnit.disconnect, auxiliary-unit ownership in Connection.reconnect, and constructor lists that contain the same '
-               'stream twice or an oversize outs list are outside the modelled domain (the generator never produces them)']
+               'stream twice, a placeholder object or an oversize outs list are outside the modelled domain (the generator never produces them)',
+               'the theorems quantify over well-formed operations (wfb: units and streams mentioned exist) used within the property\'s '
+               'preconditions (preb); for compound operations (unit.insert, disconnect(join_ends), take_place_of, replace_with, '
+               'reconnect) the precondition is that every item/slice assignment they perform meets the assignment precondition when it is performed',
+               'the model of pop is the source with pending_fixes/C18_1_pop_undock.diff applied (step); step_found is the source as found']
 TRUSTED = ['model coq/C18/Model.v is hand-written from thermosteam/network.py (StreamSequence, AbstractInlets/Outlets, '
            'AbstractStream/AbstractMissingStream disconnect, pipes, Connection.reconnect, AbstractUnit rewiring methods); tie = '
            'correspondence check after every operation of every history',
-           'python list/slice index normalisation and object identity (list.index / `in` on objects without __eq__) as transcribed']
+           'python list/slice index normalisation and object identity (list.index / `in` on objects without __eq__) as transcribed',
+           'intermediate states are compared through a 63-bit polynomial checksum (Coq primitive Uint63 under vm_compute, python int '
+           'arithmetic mod 2^63); final states are compared in full']
 CASE_TIMEOUT = 120
 
 _env = {}
@@ -709,7 +716,7 @@ def gen_cases(rng, tier):
         cases += exhaustive_cases(rng, 1, 12) + exhaustive_cases(rng, 2, 3) + exhaustive_cases(rng, 3, 1, small, empty_prefix=False)
     else:
         cases += (exhaustive_cases(rng, 1, 60) + exhaustive_cases(rng, 2, 30) + exhaustive_cases(rng, 3, 0)
-                  + exhaustive_cases(rng, 3, 8, small, empty_prefix=False) + exhaustive_cases(rng, 4, 1, small))
+                  + exhaustive_cases(rng, 3, 8, small, empty_prefix=False))
     return cases
 
 def search_cases(rng, tier):
